@@ -40,10 +40,17 @@ Definition make_relative_traversal (e : expr) (next : step) : expr :=
 Definition has_dot (bs : list Z) : bool := existsb (Z.eqb 46) bs.   (* bytes.IndexByte(b, '.') >= 0 *)
 
 (* the value of `lit.Value(nil)` / `tmpl.Value(nil)` for an index key written as a literal or as
-   a template that IsStringLiteral (one LiteralValueExpr part: a string, or the unknown
-   placeholder, for which TemplateExpr.Value yields an unknown not-null string) *)
+   a template that IsStringLiteral (one LiteralValueExpr part).  TemplateExpr.Value on one
+   literal part: a string is returned as it is; the unknown placeholder gives an unknown
+   not-null string; a null part is reported and skipped (empty string); any other known value
+   is converted to string.  (The template parser only ever builds the first two.) *)
 Definition tmpl_literal_value (v : val) : val :=
-  match v with VStr s => VStr s | _ => VUnk TStr rf_notnull end.
+  match v with
+  | VStr s => VStr s
+  | VUnk _ _ => VUnk TStr rf_notnull
+  | VNull _ => VStr []
+  | _ => match conv v TStr with COk (VStr s) => VStr s | _ => VStr [] end
+  end.
 
 Definition lookup_op (ty : Z) (level : list (Z * binop)) : option binop :=
   match find (fun p => fst p =? ty) level with Some p => Some (snd p) | None => None end.
